@@ -176,6 +176,18 @@ def _run_child(case, cfg, i, folder, out, use_pool):
                                 staged = True
                             except Exception:  # noqa: BLE001  (a refused first stage is not this check's subject)
                                 staged = False
+                    if i % 8 == 2 and not _scoped(i):
+                        # ... or in PIECES: first the tail of an independent axis (fixed_indices), then everything (cleanup=False) -
+                        # elements reach the storage in another order than their index order
+                        cand_ = [a for a in mapgen.fixable_axes(case)[0] if case["sizes"][a] >= 2]
+                        if cand_:
+                            try:
+                                pipeline.map(inputs, run_folder=run_folder_arg, internal_shapes=ishs, storage=st_arg, parallel=False,
+                                             persist_memory=True, fixed_indices={cand_[0]: slice(1, None)})
+                                staged = True
+                                res["pieces"] = True
+                            except Exception:  # noqa: BLE001  (C06's subject)
+                                staged = False
                     try:
                         r = pipeline.map(inputs, run_folder=run_folder_arg, internal_shapes=ishs, storage=st_arg, persist_memory=True,
                                          cleanup=not staged, **kw)
@@ -361,6 +373,8 @@ def run_case(desc):
                     continue
                 v.count("folders_written")
                 v.count(f"folders:{cfg}")
+                if run.get("pieces"):
+                    v.count("folders_built_in_pieces")
                 if run.get("staged"):
                     v.count("folders_built_in_stages")
                 if _large(i):
@@ -419,6 +433,8 @@ def finalize(agg, tier, seed):
                       f"{agg.counters.get('folders_with_arrays_over_1000_elements', 0)})")
     if agg.counters.get("cases_with_elements_over_1MiB", 0) < 2 or agg.counters.get("reloads_after_mutating_what_was_loaded", 0) < 100:
         floors.append("too few cases with elements over 1 MiB / reloads after mutating what was loaded")
+    if agg.counters.get("folders_built_in_pieces", 0) < 5:
+        floors.append(f"only {agg.counters.get('folders_built_in_pieces', 0)} folders built in pieces of an axis (< 5)")
     if agg.counters.get("folders_built_in_stages", 0) < 10:
         floors.append(f"only {agg.counters.get('folders_built_in_stages', 0)} folders built up in stages (< 10)")
     if agg.counters.get("skipped_run_refused", 0) * 3 > max(1, agg.counters.get("folders_written", 0)):
